@@ -6,12 +6,14 @@ package pppoe
 // handleDeadPeer / installInMemoryState driven with crafted ParsedPackets on a Component whose
 // collaborators are fakes (event bus recorder, range-based subscriber-group matcher).
 //
-//   tb <secret-hex> <ttl_s> G=<lo>-<hi> occ=<a-b,c-d|-> next=<n|-> ; <op> ...
+//   tb <ttl_s> G=<lo>-<hi> occ=<a-b,c-d|-> next=<n|-> ; <op> ...
+//   (the AC-Cookie is opaque: cookies are obtained from the real cookie manager, never forged; every cookie the
+//    harness had generated for an op is reported after the op's token as |<hex>;<hex>)
 //     I/<mac>/<sv>/<cv>                    PADI
 //     R/<mac>/<sv>/<cv>/<tagspec>          PADR; tagspec = comma list of
 //                                            s | h<hex> | e | m<hex> | r<hex> | c<cookiespec>
 //                                          cookiespec = P:<mut> (cookie of the last PADO seen)
-//                                                     | <dt>:<mac>:<sv>:<cv>:<mut> (forged, second now-dt)
+//                                                     | g:<mac>:<sv>:<cv>:<mut> (cookieMgr.Generate for that tuple, now)
 //     T/<mac>/<sv>/<cv>/<sid>              PADT
 //     S/<mac>/<sv>/<cv>/<sid>/<kind>       session-stage frame; kind: see vc04Frame (LCP codes, PAP, CHAP, IPCP, IPv6CP, IPv6, unknown)
 //     D/<sid>                              dead peer reported by the echo generator
@@ -28,8 +30,6 @@ import (
 	"bytes"
 	"context"
 	"runtime"
-	"crypto/hmac"
-	"crypto/sha256"
 	"encoding/hex"
 	"fmt"
 	"net"
@@ -277,14 +277,6 @@ func vc04Show(b []byte) string {
 
 func vc04U16(s string) uint16 { n, _ := strconv.Atoi(s); return uint16(n) }
 
-func vc04Forge(secret, mac []byte, sv, cv uint16, ts uint32) []byte {
-	d := append([]byte{}, mac...)
-	d = append(d, byte(sv>>8), byte(sv), byte(cv>>8), byte(cv), byte(ts>>24), byte(ts>>16), byte(ts>>8), byte(ts))
-	h := hmac.New(sha256.New, secret)
-	h.Write(d)
-	return append(h.Sum(nil), byte(ts>>24), byte(ts>>16), byte(ts>>8), byte(ts))
-}
-
 func vc04Mutate(c []byte, mut string) []byte {
 	c = append([]byte{}, c...)
 	switch {
@@ -387,7 +379,7 @@ type vc04World struct {
 	c        *Component
 	bus      *vc04Bus
 	gate     *vc04Gate
-	secret   []byte
+	made     []string // cookies generated for the current op (hex)
 	now      int64 // first second of the case: forged cookies are dated relative to it
 	cur      int64 // second the clock is in now (after W ops)
 	unstable bool
@@ -416,15 +408,13 @@ func (w *vc04World) register(s *SessionState, bulk bool) int {
 }
 
 func vc04Build(f []string) *vc04World {
-	secret := vc04Hex(f[1])
-	ttl, _ := strconv.Atoi(f[2])
-	cm, err := pppoe.NewCookieManager(time.Duration(ttl) * time.Second)
+	ttl, _ := strconv.Atoi(f[1])
+	cm, err := pppoe.NewCookieManager(time.Second)
 	if err != nil {
 		panic(err)
 	}
-	sv := reflect.ValueOf(cm).Elem().FieldByName("secret")
-	reflect.NewAt(sv.Type(), unsafe.Pointer(sv.UnsafeAddr())).Elem().Set(reflect.ValueOf(secret))
-	g := strings.Split(strings.TrimPrefix(f[3], "G="), "-")
+	vc04SetTTL(cm, int64(ttl))
+	g := strings.Split(strings.TrimPrefix(f[2], "G="), "-")
 	ifMgr := ifmgr.New()
 	ifMgr.Add(&ifmgr.Interface{SwIfIndex: 10, SupSwIfIndex: 2, Name: "TenGigE0/0.100", Type: ifmgr.IfTypeSub, OuterVlanID: 100})
 	ifMgr.Add(&ifmgr.Interface{SwIfIndex: 2, Name: "TenGigE0/0", Type: ifmgr.IfTypeHardware, MAC: []byte{0x52, 0x54, 0x00, 0x11, 0x22, 0x33}})
@@ -454,8 +444,8 @@ func vc04Build(f []string) *vc04World {
 	c.SetReadyState(component.StateReady)
 	c.StartContext(context.Background())
 	gate.sidMu = &c.sidMu
-	w := &vc04World{c: c, bus: bus, gate: gate, secret: secret, uid: map[*SessionState]int{}, byName: map[string]*SessionState{}}
-	if occ := strings.TrimPrefix(f[4], "occ="); occ != "-" {
+	w := &vc04World{c: c, bus: bus, gate: gate, uid: map[*SessionState]int{}, byName: map[string]*SessionState{}}
+	if occ := strings.TrimPrefix(f[3], "occ="); occ != "-" {
 		for _, r := range strings.Split(occ, ",") {
 			ab := strings.Split(r, "-")
 			a, _ := strconv.Atoi(ab[0])
@@ -466,7 +456,7 @@ func vc04Build(f []string) *vc04World {
 		}
 	}
 	w.nbulk = len(w.bulk)
-	if nx := strings.TrimPrefix(f[5], "next="); nx != "-" {
+	if nx := strings.TrimPrefix(f[4], "next="); nx != "-" {
 		c.nextSessionID = vc04U16(nx)
 	}
 	return w
@@ -491,8 +481,19 @@ func (w *vc04World) cookie(spec string, mac []byte, sv, cv uint16) []byte {
 	if p[0] == "P" {
 		return vc04Mutate(w.lastPado, p[1])
 	}
-	dt, _ := strconv.ParseInt(p[0], 10, 64)
-	return vc04Mutate(vc04Forge(w.secret, vc04Hex(p[1]), vc04U16(p[2]), vc04U16(p[3]), uint32(w.now-dt)), p[4])
+	return vc04Mutate(w.gen(vc04Hex(p[1]), vc04U16(p[2]), vc04U16(p[3])), p[4])
+}
+
+// gen obtains a cookie from the component's own cookie manager and reports it with the op
+func (w *vc04World) gen(mac []byte, sv, cv uint16) []byte {
+	ck := w.c.cookieMgr.Generate(net.HardwareAddr(mac), sv, cv)
+	w.made = append(w.made, vc04Show(ck))
+	return ck
+}
+
+func vc04SetTTL(cm *pppoe.CookieManager, seconds int64) {
+	tv := reflect.ValueOf(cm).Elem().FieldByName("ttl")
+	reflect.NewAt(tv.Type(), unsafe.Pointer(tv.UnsafeAddr())).Elem().SetInt(seconds * int64(time.Second))
 }
 
 func (w *vc04World) tags(spec string, mac []byte, sv, cv uint16) []byte {
@@ -541,6 +542,15 @@ func (w *vc04World) uids(names []string) string {
 }
 
 func (w *vc04World) op(tok string) string {
+	w.made = nil
+	r := w.op1(tok)
+	if len(w.made) > 0 {
+		r += "|" + strings.Join(w.made, ";")
+	}
+	return r
+}
+
+func (w *vc04World) op1(tok string) string {
 	p := strings.Split(tok, "/")
 	c := w.c
 	w.bus.take()
@@ -702,7 +712,7 @@ func (w *vc04World) op(tok string) string {
 		raw, _ := proto.Marshal(cp)
 		c.opdb.Put(context.Background(), opdb.NamespaceHASyncedPPPoE, name, raw)
 		c.vpp = vc04SB{}
-		pk := w.pkt(rmac, sv, cv, layers.PPPoECodePADR, 0, vc04Tag(0x0104, vc04Forge(w.secret, rmac, sv, cv, uint32(w.now))))
+		pk := w.pkt(rmac, sv, cv, layers.PPPoECodePADR, 0, vc04Tag(0x0104, w.gen(rmac, sv, cv)))
 		var wg sync.WaitGroup
 		wg.Add(2)
 		go func() { defer wg.Done(); c.restoreFromHASync("srg1") }()
@@ -757,8 +767,7 @@ func (w *vc04World) op(tok string) string {
 		return "-"
 	case "L":
 		n, _ := strconv.ParseInt(p[1], 10, 64)
-		tv := reflect.ValueOf(c.cookieMgr).Elem().FieldByName("ttl")
-		reflect.NewAt(tv.Type(), unsafe.Pointer(tv.UnsafeAddr())).Elem().SetInt(n * int64(time.Second))
+		vc04SetTTL(c.cookieMgr, n)
 		return "-"
 	case "X":
 		sid, mac, sv, cv := vc04U16(p[1]), vc04Hex(p[2]), vc04U16(p[3]), vc04U16(p[4])
@@ -778,7 +787,7 @@ func (w *vc04World) op(tok string) string {
 		var wg sync.WaitGroup
 		for i := 0; i < n; i++ {
 			mac := []byte{0x0a, 0, 0, 0, byte(i >> 8), byte(i)}
-			pl := vc04Tag(0x0104, vc04Forge(w.secret, mac, sv, 0, uint32(w.now)))
+			pl := vc04Tag(0x0104, w.gen(mac, sv, 0))
 			pk := w.pkt(mac, sv, 0, layers.PPPoECodePADR, 0, pl)
 			wg.Add(1)
 			go func() {
@@ -821,7 +830,7 @@ func (w *vc04World) op(tok string) string {
 		var wg sync.WaitGroup
 		for i := 0; i < n; i++ {
 			mac := []byte{6, 0, 0, 0, byte(i >> 8), byte(i)}
-			pl := vc04Tag(0x0104, vc04Forge(w.secret, mac, sv, 0, uint32(w.now)))
+			pl := vc04Tag(0x0104, w.gen(mac, sv, 0))
 			pk := w.pkt(mac, sv, 0, layers.PPPoECodePADR, 0, pl)
 			wg.Add(1)
 			go func() { defer wg.Done(); c.handlePADR(pk) }()
@@ -906,7 +915,7 @@ func vc04Case(line string) (res string) {
 		}
 	}()
 	f := strings.Fields(line)
-	if len(f) < 7 || f[0] != "tb" || f[6] != ";" {
+	if len(f) < 6 || f[0] != "tb" || f[5] != ";" {
 		return "badline"
 	}
 	for attempt := 0; attempt < 10; attempt++ {
@@ -919,7 +928,7 @@ func vc04Case(line string) (res string) {
 		w.now = t0.Unix()
 		w.cur = w.now
 		outs := []string{fmt.Sprintf("now=%d", w.now)}
-		for _, tok := range f[7:] {
+		for _, tok := range f[6:] {
 			outs = append(outs, w.op(tok))
 		}
 		outs = append(outs, ";", w.dump())
